@@ -247,6 +247,11 @@ impl Env {
                 };
                 Ok(removed.unwrap_or(TV::Null))
             }
+            E::Cont(inner, p) => {
+                // the whole container expression is evaluated, then the path is read
+                let v = self.with_ctx("container_query", |s| s.eval(inner))?;
+                Ok(vpath::get(&v, p).cloned().unwrap_or(TV::Null))
+            }
             E::Exists(t) => Ok(TV::Bool(match t {
                 Target::Var(v, p) => self.vars.get(v).and_then(|x| vpath::get(x, p)).is_some(),
                 Target::Ev(p) => vpath::get(&self.event, p).is_some(),
